@@ -236,15 +236,65 @@ def enclosing_block(body, at_regex):
     raise ExtractionError("no enclosing block")
 
 
-def slice_between(body, first_regex, last_regex):
-    """Statement slice of a body: from the match of first_regex to the end of the match of last_regex."""
-    m1 = re.search(first_regex, body)
-    if not m1:
-        raise ExtractionError(f"slice start /{first_regex}/ not found")
-    m2 = re.search(last_regex, body[m1.start():], flags=re.S)
+def bare_block(body, ordinal):
+    """the `ordinal`-th bare `{...}` block among the top-level statements of a brace-enclosed body"""
+    assert body.lstrip()[0] == "{"
+    i = body.index("{") + 1
+    n = len(body)
+    found = []
+    at_stmt_start = True
+    while i < n:
+        c = body[i]
+        if c.isspace():
+            i += 1
+            continue
+        if c == "}":
+            break
+        if c == "{" and at_stmt_start:
+            e = match_close(body, i)
+            found.append(body[i:e + 1])
+            i = e + 1
+            continue
+        # skip one statement: up to ';' at depth 0, or a compound statement's closing brace
+        depth = 0
+        while i < n:
+            c = body[i]
+            if c in "([":
+                depth += 1
+            elif c in ")]":
+                depth -= 1
+            elif c == "{" and depth == 0:
+                i = match_close(body, i)
+                # `if (...) {...} else {...}` chains: continue if followed by else
+                j = i + 1
+                while j < n and body[j].isspace():
+                    j += 1
+                if body.startswith("else", j):
+                    i = j + 4
+                    continue
+                i += 1
+                break
+            elif c == ";" and depth == 0:
+                i += 1
+                break
+            i += 1
+    if len(found) <= ordinal:
+        raise ExtractionError(f"bare block {ordinal} not found ({len(found)} bare blocks)")
+    return found[ordinal]
+
+
+def slice_between(body, first_regex, last_regex, nth=0, after=False):
+    """Statement slice of a body: from the nth match of first_regex to the end of the first match of last_regex
+    (searched from the start of that match, or from its end when after=True)."""
+    ms = list(re.finditer(first_regex, body))
+    if len(ms) <= nth:
+        raise ExtractionError(f"slice start /{first_regex}/ (occurrence {nth}) not found")
+    m1 = ms[nth]
+    base = m1.end() if after else m1.start()
+    m2 = re.search(last_regex, body[base:], flags=re.S)
     if not m2:
         raise ExtractionError(f"slice end /{last_regex}/ not found")
-    return body[m1.start():m1.start() + m2.end()]
+    return body[m1.start():base + m2.end()]
 
 
 # ----------------------------------------------------------------------------------------------- rewrite rules
@@ -664,8 +714,11 @@ def extract_fn(fn, mutate=False):
             _, body = loop_body(whole, pc["ordinal"])
         elif kind == "block":
             body = enclosing_block(whole, pc["at"])
+        elif kind == "bare_block":      # the n-th bare {...} block among the statements of a loop body
+            _, lb = loop_body(whole, pc["in_loop"])
+            body = bare_block(lb, pc["ordinal"])
         elif kind == "slice":
-            body = slice_between(whole, pc["first"], pc["last"])      # wrapped in braces below (one scope with the epilogue)
+            body = slice_between(whole, pc["first"], pc["last"], pc.get("nth", 0), pc.get("after", False))   # wrapped in braces below
         else:
             raise ExtractionError("unknown piece kind")
         # live-ins passed by pointer: every use becomes (*name)
